@@ -23,9 +23,9 @@ Qed.
 
 Definition is_tick (o : rop) : bool := match o with OTick => true | _ => false end.
 
-(* operations at time `now`, none of them a probing pass *)
+(* operations at time `now`, none of them a probing pass or the handling of a conflicting response *)
 Definition quiet_ops (now : N) (ops : list (N * rop)) : Prop :=
-  Forall (fun o => fst o = now /\ is_tick (snd o) = false) ops.
+  Forall (fun o => fst o = now /\ is_tick (snd o) = false /\ is_conflict (snd o) = false) ops.
 
 Definition QReach (now : N) (rg rg' : registry) : Prop :=
   exists ops, quiet_ops now ops /\ rg' = final_reg rg ops.
@@ -40,13 +40,13 @@ Proof.
   - symmetry. apply final_reg_app.
 Qed.
 
-Lemma QReach_one now rg o : is_tick o = false -> QReach now rg (fst (fst (apply_op rg now o))).
-Proof. intros H. exists [(now, o)]. split; [repeat constructor; assumption|reflexivity]. Qed.
+Lemma QReach_one now rg o : is_tick o = false -> is_conflict o = false -> QReach now rg (fst (fst (apply_op rg now o))).
+Proof. intros H H2. exists [(now, o)]. split; [repeat constructor; assumption|reflexivity]. Qed.
 
 Lemma quiet_run now ops : forall rg, quiet_ops now ops -> Forall (fun e => e = (now, [], [])) (run_ops rg ops).
 Proof.
   induction ops as [|[t o] r IH]; intros rg H; simpl; [constructor|].
-  inversion H as [|x l Hx Hr]; subst. destruct Hx as [Ht Ho]. simpl in Ht, Ho. subst t.
+  inversion H as [|x l Hx Hr]; subst. destruct Hx as (Ht & Ho & Hc). simpl in Ht, Ho, Hc. subst t.
   destruct o; try discriminate; simpl; constructor; auto.
 Qed.
 
@@ -148,8 +148,8 @@ Lemma register_service_reach st s now js :
   AllQ now (d_regs st) (d_regs (fst (fst (register_service st s now js)))).
 Proof.
   unfold register_service.
-  pose proof (register_intfs_reach now (d_intfs st) s (d_regs st) js) as H.
-  destruct (register_intfs (d_intfs st) s (d_regs st) now js) as [[[[s' regs] os] anns] js']. simpl in *. exact H.
+  pose proof (register_intfs_reach now (d_intfs st) (auto_addrs st s) (d_regs st) js) as H.
+  destruct (register_intfs (d_intfs st) (auto_addrs st s) (d_regs st) now js) as [[[[s' regs] os] anns] js']. simpl in *. exact H.
 Qed.
 
 Lemma register_resend_reach st full i now js :
@@ -167,29 +167,10 @@ Qed.
 
 (* ---- incoming datagrams --------------------------------------------------------------------------------------------- *)
 
-Lemma conflict_answers_reach now : forall answers rg js,
-  QReach now rg (fst (conflict_answers rg answers now js)).
-Proof.
-  induction answers as [|a t IH]; intros rg js; simpl; [apply QReach_refl|].
-  destruct (conflict_applies rg a) eqn:C; [|apply IH].
-  destruct (draw js) as [j js']. eapply QReach_trans; [|apply IH].
-  apply (QReach_one now rg (OConflict a j)). reflexivity.
-Qed.
-
-Lemma handle_response_reach st g now js :
-  AllQ now (d_regs st) (d_regs (fst (handle_response st g now js))).
-Proof.
-  unfold handle_response. destruct (find_intf st (g_if g)); [|apply AllQ_refl].
-  destruct (nget (g_if g) (d_regs st)) as [rg|] eqn:G; [|apply AllQ_refl].
-  pose proof (conflict_answers_reach now (g_an g) rg js) as H.
-  destruct (conflict_answers rg (g_an g) now js) as [rg' js']. simpl in *.
-  apply AllQ_nset. unfold reg_of. rewrite G. exact H.
-Qed.
-
 Lemma tiebreak_question_reach rg g qn qt now : QReach now rg (tiebreak_question rg g qn qt now).
 Proof.
   unfold tiebreak_question. destruct ((qt =? TY_ANY) && negb match g_ns g with [] => true | _ :: _ => false end).
-  - apply (QReach_one now rg (OTiebreak qn (filter (fun r => beq (r_name r) qn) (g_ns g)))). reflexivity.
+  - apply (QReach_one now rg (OTiebreak qn (filter (fun r => beq (r_name r) qn) (g_ns g)))); reflexivity.
   - apply QReach_refl.
 Qed.
 
@@ -217,32 +198,37 @@ Proof.
   destruct an; simpl; exact A.
 Qed.
 
-Lemma handle_dgram_reach st g now js : AllQ now (d_regs st) (d_regs (fst (fst (handle_dgram st g now js)))).
+Definition all_queries (gs : list dgram) : Prop := Forall (fun g => g_resp g = false) gs.
+
+Lemma handle_dgram_reach st g now js :
+  g_resp g = false -> AllQ now (d_regs st) (d_regs (fst (fst (handle_dgram st g now js)))).
 Proof.
-  unfold handle_dgram. destruct (find_intf st (g_if g)); [|apply AllQ_refl].
+  intros Hq. unfold handle_dgram. destruct (find_intf st (g_if g)); [|apply AllQ_refl].
   destruct (negb (intf_has_family i (g_v4 g))); [apply AllQ_refl|].
-  destruct (g_resp g).
-  - pose proof (handle_response_reach st g now js) as H.
-    destruct (handle_response st g now js) as [st' js']. simpl in *. exact H.
-  - pose proof (handle_query_reach st g now) as H.
-    destruct (handle_query st g now) as [st' os]. simpl in *. exact H.
+  rewrite Hq.
+  pose proof (handle_query_reach st g now) as H.
+  destruct (handle_query st g now) as [st' os]. simpl in *. exact H.
 Qed.
 
 Lemma handle_dgrams_reach now : forall gs st js,
-  AllQ now (d_regs st) (d_regs (fst (fst (handle_dgrams st gs now js)))).
+  all_queries gs -> AllQ now (d_regs st) (d_regs (fst (fst (handle_dgrams st gs now js)))).
 Proof.
-  induction gs as [|g t IH]; intros st js; simpl; [apply AllQ_refl|].
-  pose proof (handle_dgram_reach st g now js) as H1.
+  induction gs as [|g t IH]; intros st js Hq; simpl; [apply AllQ_refl|].
+  inversion Hq as [|x l Hg Ht]; subst.
+  pose proof (handle_dgram_reach st g now js Hg) as H1.
   destruct (handle_dgram st g now js) as [[st1 os1] js1]. simpl in H1.
-  specialize (IH st1 js1). destruct (handle_dgrams st1 t now js1) as [[st2 os2] js2]. simpl in *.
+  specialize (IH st1 js1 Ht). destruct (handle_dgrams st1 t now js1) as [[st2 os2] js2]. simpl in *.
   eapply AllQ_trans; eassumption.
 Qed.
 
 (* ---- calls and retransmissions ----------------------------------------------------------------------------------------- *)
 
-Lemma exec_call_reach st c now js : AllQ now (d_regs st) (d_regs (fst (fst (fst (exec_call st c now js))))).
+Definition no_ifsel (c : call) : Prop := match c with CIfSel _ _ => False | _ => True end.
+
+Lemma exec_call_reach st c now js :
+  no_ifsel c -> AllQ now (d_regs st) (d_regs (fst (fst (fst (exec_call st c now js))))).
 Proof.
-  destruct c; simpl.
+  intros Hc. destruct c; simpl; try contradiction.
   - pose proof (register_service_reach st s now js) as H.
     destruct (register_service st s now js) as [[st1 os1] js1]. simpl in *. exact H.
   - unfold unregister. destruct (aget (lower name) (d_svcs st)); simpl; apply AllQ_refl.
@@ -252,13 +238,14 @@ Proof.
 Qed.
 
 Lemma exec_calls_reach now : forall cs st js,
-  AllQ now (d_regs st) (d_regs (fst (fst (exec_calls st cs now js)))).
+  Forall no_ifsel cs -> AllQ now (d_regs st) (d_regs (fst (fst (exec_calls st cs now js)))).
 Proof.
-  induction cs as [|c t IH]; intros st js; simpl; [apply AllQ_refl|].
-  pose proof (exec_call_reach st c now js) as H1.
+  induction cs as [|c t IH]; intros st js Hc; simpl; [apply AllQ_refl|].
+  inversion Hc as [|x l Hx Ht]; subst.
+  pose proof (exec_call_reach st c now js Hx) as H1.
   destruct (exec_call st c now js) as [[[st1 os1] js1] stop]. simpl in H1.
   destruct stop; simpl; [exact H1|].
-  specialize (IH st1 js1). destruct (exec_calls st1 t now js1) as [[st2 os2] js2]. simpl in *.
+  specialize (IH st1 js1 Ht). destruct (exec_calls st1 t now js1) as [[st2 os2] js2]. simpl in *.
   eapply AllQ_trans; eassumption.
 Qed.
 
@@ -275,7 +262,7 @@ Proof.
 Qed.
 
 Lemma retransmit_reach st now js : AllQ now (d_regs st) (d_regs (fst (fst (retransmit st now js)))).
-Proof. unfold retransmit. apply (run_due_reach now _ (mkD _ _ _ _ _ _ _) js). Qed.
+Proof. unfold retransmit. apply (run_due_reach now _ (mkD _ _ _ _ _ _ _ _) js). Qed.
 
 (* ---- which outputs are probe queries ----------------------------------------------------------------------------------- *)
 
@@ -283,7 +270,6 @@ Proof. unfold retransmit. apply (run_due_reach now _ (mkD _ _ _ _ _ _ _) js). Qe
 Definition all_resp (os : list out) : Prop :=
   forall o, In o os -> match o with
                        | OSend _ _ _ m => o_resp m = true
-                       | OResend _ _ m => o_resp m = true
                        | _ => True end.
 
 Lemma all_resp_app a b : all_resp a -> all_resp b -> all_resp (a ++ b).
@@ -301,7 +287,7 @@ Qed.
 Lemma probe_names_app a b k : probe_names_on (a ++ b) k = probe_names_on a k ++ probe_names_on b k.
 Proof. unfold probe_names_on. apply flat_map_app. Qed.
 
-Lemma mon_all_resp m os : (forall o, In o os -> match o with OSend _ _ _ _ | OResend _ _ _ => False | _ => True end) -> all_resp (mon m os).
+Lemma mon_all_resp m os : (forall o, In o os -> match o with OSend _ _ _ _ => False | _ => True end) -> all_resp (mon m os).
 Proof.
   intros H. unfold mon. destruct m; [|apply all_resp_nil]. intros o Ho. specialize (H o Ho). destruct o; tauto.
 Qed.
@@ -320,7 +306,7 @@ Proof.
   - destruct m6 as [m|]; [|apply all_resp_nil]. intros o [<-|[]]. eapply prepare_announce_resp; eassumption.
 Qed.
 
-Lemma ev_all_resp (m : bool) o : match o with OSend _ _ _ _ | OResend _ _ _ => False | _ => True end -> all_resp (mon m [o]).
+Lemma ev_all_resp (m : bool) o : match o with OSend _ _ _ _ => False | _ => True end -> all_resp (mon m [o]).
 Proof. intros H. apply mon_all_resp. intros x [<-|[]]. exact H. Qed.
 
 (* pending goodbye repeats hold responses *)
@@ -345,8 +331,8 @@ Lemma register_service_resp st s now js :
   (retrans_ok st -> retrans_ok (fst (fst (register_service st s now js)))).
 Proof.
   unfold register_service.
-  pose proof (register_intfs_resp now (d_intfs st) s (d_regs st) js) as H.
-  destruct (register_intfs (d_intfs st) s (d_regs st) now js) as [[[[s' regs] os] anns] js']. simpl in *. split.
+  pose proof (register_intfs_resp now (d_intfs st) (auto_addrs st s) (d_regs st) js) as H.
+  destruct (register_intfs (d_intfs st) (auto_addrs st s) (d_regs st) now js) as [[[[s' regs] os] anns] js']. simpl in *. split.
   - apply all_resp_app; [assumption|]. destruct anns; [apply all_resp_nil|]. apply ev_all_resp. exact I.
   - intros R t m i v4 Hin. apply in_app_or in Hin as [Hin|Hin]; [eapply R; eassumption|].
     apply in_map_iff in Hin as (x & Hx & _). discriminate.
@@ -365,10 +351,11 @@ Proof.
   destruct ann; simpl; split; auto. apply all_resp_app; [assumption|]. apply ev_all_resp. exact I.
 Qed.
 
-Lemma goodbye_sends_resp s ifs : all_resp (map send_of (goodbyes_of s ifs)).
+Lemma goodbye_sends_resp st s : all_resp (map send_of (goodbyes_of st s)).
 Proof.
   intros o Ho. apply in_map_iff in Ho as ([[i v4] m] & <- & Hin). simpl.
   unfold goodbyes_of in Hin. apply in_flat_map in Hin as (itf & _ & Hin).
+  destruct (announced_on (if_index itf) s); [|contradiction].
   apply in_app_or in Hin as [Hin|Hin]; unfold goodbye_on in Hin;
     [destruct (addrs_on_intf s itf true)|destruct (addrs_on_intf s itf false)]; simpl in Hin; try contradiction;
     destruct Hin as [Hin|[]]; inversion Hin; reflexivity.
@@ -382,7 +369,7 @@ Proof.
     + apply all_resp_app; [apply goodbye_sends_resp|]. intros o [<-|[]]. exact I.
     + intros R t m i v4 Hin. apply in_app_or in Hin as [Hin|Hin]; [eapply R; eassumption|].
       apply in_map_iff in Hin as ([[i' v4'] m'] & Hx & Hin). unfold resend_of in Hx. inversion Hx; subst.
-      pose proof (goodbye_sends_resp s (d_intfs st) (send_of (i, v4, m))) as G.
+      pose proof (goodbye_sends_resp st s (send_of (i, v4, m))) as G.
       apply G. apply in_map. assumption.
   - split; [intros o [<-|[]]; exact I|auto].
 Qed.
@@ -396,10 +383,11 @@ Proof.
 Qed.
 
 Lemma exec_call_resp st c now js :
+  no_ifsel c ->
   all_resp (snd (fst (fst (exec_call st c now js)))) /\
   (retrans_ok st -> retrans_ok (fst (fst (fst (exec_call st c now js))))).
 Proof.
-  destruct c; simpl.
+  intros Hc. destruct c; simpl; try contradiction.
   - pose proof (register_service_resp st s now js) as H.
     destruct (register_service st s now js) as [[st1 os1] js1]. simpl in *. exact H.
   - pose proof (unregister_resp st (lower name) ch now) as H.
@@ -410,14 +398,16 @@ Proof.
 Qed.
 
 Lemma exec_calls_resp now : forall cs st js,
+  Forall no_ifsel cs ->
   all_resp (snd (fst (exec_calls st cs now js))) /\
   (retrans_ok st -> retrans_ok (fst (fst (exec_calls st cs now js)))).
 Proof.
-  induction cs as [|c t IH]; intros st js; simpl; [split; [apply all_resp_nil|auto]|].
-  pose proof (exec_call_resp st c now js) as [H1 R1].
+  induction cs as [|c t IH]; intros st js Hc; simpl; [split; [apply all_resp_nil|auto]|].
+  inversion Hc as [|x l Hx Ht]; subst.
+  pose proof (exec_call_resp st c now js Hx) as [H1 R1].
   destruct (exec_call st c now js) as [[[st1 os1] js1] stop]. simpl in H1, R1.
   destruct stop; simpl; [split; assumption|].
-  specialize (IH st1 js1). destruct (exec_calls st1 t now js1) as [[st2 os2] js2]. simpl in *.
+  specialize (IH st1 js1 Ht). destruct (exec_calls st1 t now js1) as [[st2 os2] js2]. simpl in *.
   destruct IH as [H2 R2]. split; [apply all_resp_app; assumption|auto].
 Qed.
 
@@ -551,7 +541,7 @@ Proof.
       destruct (announce_waiting waiting itf rg1 (d_svcs st) now js (d_mon st)) as [[[[rg2 svcs2] os2] rt2] js2].
       simpl in Haw. destruct Haw as (A1 & A2 & A3).
       set (st1 := mkD (d_intfs st) (nset (if_index itf) rg2 (d_regs st)) svcs2 (d_retrans st ++ rt2)
-                      (d_mon st) (d_dead st) (d_mif4 st)).
+                      (d_mon st) (d_dead st) (d_os st) (d_sel st)).
       specialize (IH st1 js2 Hnd').
       destruct (probing_intfs t st1 now js2) as [[st2 os3] js3]. simpl in IH. destruct IH as (I1 & I2 & I3). simpl.
       assert (Hnev : all_resp (mon (d_mon st) (map (fun e : name_event => let '(o, n, ty) := e in ONameChange o n ty (if_name itf)) evs))).
@@ -603,7 +593,7 @@ Proof.
         -- apply I2. assumption.
 Qed.
 
-(* ---- the interface table never changes ------------------------------------------------------------------------------------------ *)
+(* ---- the interface table does not change without enable_interface / disable_interface ------------------------------------------ *)
 
 Lemma handle_dgrams_intfs now : forall gs st js, d_intfs (fst (fst (handle_dgrams st gs now js))) = d_intfs st.
 Proof.
@@ -627,16 +617,18 @@ Proof.
   destruct (announce_both s i0 r now js) as [[[rg' os] ann] js']. destruct ann; reflexivity.
 Qed.
 
-Lemma exec_calls_intfs now : forall cs st js, d_intfs (fst (fst (exec_calls st cs now js))) = d_intfs st.
+Lemma exec_calls_intfs now : forall cs st js,
+  Forall no_ifsel cs -> d_intfs (fst (fst (exec_calls st cs now js))) = d_intfs st.
 Proof.
-  induction cs as [|c t IH]; intros st js; simpl; [reflexivity|].
+  induction cs as [|c t IH]; intros st js Hc; simpl; [reflexivity|].
+  inversion Hc as [|x l Hx Ht]; subst.
   assert (H1 : d_intfs (fst (fst (fst (exec_call st c now js)))) = d_intfs st).
-  { destruct c; simpl; try reflexivity.
-    - unfold register_service. destruct (register_intfs (d_intfs st) s (d_regs st) now js) as [[[[s' regs] os] anns] js']. reflexivity.
+  { destruct c; simpl; try reflexivity; try contradiction.
+    - unfold register_service. destruct (register_intfs (d_intfs st) (auto_addrs st s) (d_regs st) now js) as [[[[s' regs] os] anns] js']. reflexivity.
     - unfold unregister. destruct (aget (lower name) (d_svcs st)); reflexivity. }
   destruct (exec_call st c now js) as [[[st1 os1] js1] stop]. simpl in H1.
   destruct stop; simpl; [assumption|].
-  specialize (IH st1 js1). destruct (exec_calls st1 t now js1) as [[st2 os2] js2]. simpl in *. congruence.
+  specialize (IH st1 js1 Ht). destruct (exec_calls st1 t now js1) as [[st2 os2] js2]. simpl in *. congruence.
 Qed.
 
 Lemma run_due_intfs now : forall due st js, d_intfs (fst (fst (run_due st due now js))) = d_intfs st.
@@ -662,7 +654,7 @@ Proof.
   simpl in *. exact IH.
 Qed.
 
-(* ---- post-processing of an iteration's outputs ------------------------------------------------------------------------------------- *)
+(* ---- an iteration's outputs are cut at the first send that cannot be written --------------------------------------------------------- *)
 
 Lemma cut_names os k : forall n, In n (probe_names_on (fst (cut_at_panic os)) k) -> In n (probe_names_on os k).
 Proof.
@@ -672,64 +664,6 @@ Proof.
   destruct (msg_ok m).
   - destruct (cut_at_panic t) as [r p]. simpl in *. apply in_app_or in Hn as [Hn|Hn]; apply in_or_app; [left; assumption|right; apply IH; assumption].
   - simpl in Hn. contradiction.
-Qed.
-
-Definition resends_resp (os : list out) : Prop := forall i v m, In (OResend i v m) os -> o_resp m = true.
-
-Lemma place_names os k : resends_resp os -> forall mif n,
-  In n (probe_names_on (fst (place_resends mif os)) k) -> In n (probe_names_on os k).
-Proof.
-  induction os as [|o t IH]; intros R mif n Hn; simpl in *; [assumption|].
-  assert (Rt : resends_resp t) by (intros i v m H; apply (R i v m); right; assumption).
-  destruct o as [i v4 d m|i v4 m|nm det|o1 n1 ty1 ifn|ifn|ch ok|]; simpl in *.
-  - destruct v4.
-    + destruct (place_resends (Some i) t) as [r f] eqn:E. simpl in *.
-      apply in_app_or in Hn as [Hn|Hn]; apply in_or_app; [left; assumption|right].
-      apply (IH Rt (Some i)). rewrite E. exact Hn.
-    + destruct (place_resends mif t) as [r f] eqn:E. simpl in *.
-      apply in_app_or in Hn as [Hn|Hn]; apply in_or_app; [left; assumption|right].
-      apply (IH Rt mif). rewrite E. exact Hn.
-  - assert (Hm : o_resp m = true) by (apply (R i v4 m); left; reflexivity).
-    destruct v4; destruct (place_resends mif t) as [r f] eqn:E; simpl in *;
-      rewrite Hm in Hn; rewrite andb_false_r in Hn; simpl in Hn; apply (IH Rt mif); rewrite E; exact Hn.
-  - destruct (place_resends mif t) as [r f] eqn:E; simpl in *; apply (IH Rt mif); rewrite E; exact Hn.
-  - destruct (place_resends mif t) as [r f] eqn:E; simpl in *; apply (IH Rt mif); rewrite E; exact Hn.
-  - destruct (place_resends mif t) as [r f] eqn:E; simpl in *; apply (IH Rt mif); rewrite E; exact Hn.
-  - destruct (place_resends mif t) as [r f] eqn:E; simpl in *; apply (IH Rt mif); rewrite E; exact Hn.
-  - destruct (place_resends mif t) as [r f] eqn:E; simpl in *; apply (IH Rt mif); rewrite E; exact Hn.
-Qed.
-
-Lemma all_resp_resends os : all_resp os -> resends_resp os.
-Proof. intros H i v m Hin. exact (H _ Hin). Qed.
-
-Lemma resends_resp_app a b : resends_resp a -> resends_resp b -> resends_resp (a ++ b).
-Proof. intros Ha Hb i v m Hin. apply in_app_or in Hin as [H|H]; [eapply Ha|eapply Hb]; eassumption. Qed.
-
-Lemma cut_resends os : resends_resp os -> resends_resp (fst (cut_at_panic os)).
-Proof.
-  induction os as [|o t IH]; intros R; simpl; [assumption|].
-  assert (Rt : resends_resp t) by (intros i v m H; apply (R i v m); right; assumption).
-  destruct o; simpl;
-    try (destruct (cut_at_panic t) as [r p] eqn:E; simpl in *; intros i v m' [H|H]; [try discriminate|apply (IH Rt i v m'); exact H]).
-  - destruct (msg_ok m); [|intros i v m' []].
-    destruct (cut_at_panic t) as [r p] eqn:E. simpl in *. intros i v m' [H|H]; [discriminate|apply (IH Rt i v m'); exact H].
-  - inversion H; subst. apply (R i v m'). left. reflexivity.
-Qed.
-
-Lemma probing_intfs_no_resends now : forall ifs st js, resends_resp (snd (fst (probing_intfs ifs st now js))).
-Proof.
-  induction ifs as [|itf t IH]; intros st js; simpl; [intros i v m []|].
-  destruct (nget (if_index itf) (d_regs st)) as [rg|]; [|apply IH].
-  destruct (probe_step rg now) as [[[rg1 qs] evs] waiting].
-  pose proof (announce_waiting_facts itf now (d_mon st) waiting rg1 (d_svcs st) js) as Haw.
-  destruct (announce_waiting waiting itf rg1 (d_svcs st) now js (d_mon st)) as [[[[rg2 svcs2] os2] rt2] js2].
-  simpl in Haw. destruct Haw as (_ & A2 & _).
-  match goal with |- context [probing_intfs t ?s now js2] => specialize (IH s js2); destruct (probing_intfs t s now js2) as [[st2 os3] js3] end.
-  simpl in *. apply resends_resp_app; [|apply resends_resp_app; [|apply resends_resp_app; [apply all_resp_resends; assumption|assumption]]].
-  - intros i v m Hin. destruct qs; [destruct Hin|]. apply in_app_or in Hin as [Hin|Hin];
-      [destruct (intf_has_family itf true)|destruct (intf_has_family itf false)]; simpl in Hin; try contradiction;
-      destruct Hin as [Hin|[]]; discriminate.
-  - apply all_resp_resends. apply mon_all_resp. intros o Ho. apply in_map_iff in Ho as ([[o1 n1] ty1] & <- & _). exact I.
 Qed.
 
 (* ---- the invariant along the operations of one iteration ------------------------------------------------------------------------------ *)
@@ -744,11 +678,12 @@ Lemma quiet_ops_inv now : forall ops rg f t,
 Proof.
   induction ops as [|[t0 o] r IH]; intros rg f t Q HI Hle; simpl.
   - eapply Inv_later; eassumption.
-  - inversion Q as [|x l Hx Hr]; subst. destruct Hx as [Ht Ho]. simpl in Ht, Ho. subst t0.
+  - inversion Q as [|x l Hx Hr]; subst. destruct Hx as (Ht & Ho & Hcf). simpl in Ht, Ho, Hcf. subst t0.
     destruct (apply_op rg now o) as [[rg' qs] ex] eqn:Hop. simpl.
     destruct (apply_op_inv _ _ _ _ _ _ _ _ HI Hle Hop) as [HI' _].
     assert (qs = []) by (destruct o; try discriminate; simpl in Hop; inversion Hop; reflexivity). subst qs.
-    apply (IH rg' f now Hr); [|lia]. eapply Inv_ext; [|exact HI']. intros x. reflexivity.
+    apply (IH rg' f now Hr); [|lia]. eapply Inv_ext; [|exact HI'].
+    intros x. unfold ghost_after. rewrite Hcf. reflexivity.
 Qed.
 
 Lemma QReach_inv now rg rg' f t :
@@ -769,8 +704,18 @@ Qed.
 
 (* ---- one iteration, seen from the registry of interface k ------------------------------------------------------------------------------- *)
 
+(* an iteration without response datagrams and without enable/disable_interface calls *)
+Definition plain_iter (it : iter) : Prop := all_queries (it_dgrams it) /\ Forall no_ifsel (it_calls it).
+
+Lemma all_queries_split gs :
+  all_queries gs -> all_queries (filter (fun g : dgram => g_v4 g) gs ++ filter (fun g : dgram => negb (g_v4 g)) gs).
+Proof.
+  intros H. unfold all_queries in *. rewrite Forall_forall in H.
+  apply Forall_app. split; apply Forall_forall; intros g Hg; apply filter_In in Hg as [Hg _]; auto.
+Qed.
+
 Lemma iterate_step k st it st' outs e js' f t :
-  d_dead st = false -> NoDup (map if_index (d_intfs st)) -> retrans_ok st ->
+  d_dead st = false -> NoDup (map if_index (d_intfs st)) -> retrans_ok st -> plain_iter it ->
   iterate st it = (st', outs, e, js') ->
   Inv (rg_probing (get_reg st k)) f t -> t <= it_now it ->
   exists qs,
@@ -779,17 +724,18 @@ Lemma iterate_step k st it st' outs e js' f t :
     (forall n, In n (probe_names_on outs k) -> In n qs) /\
     retrans_ok st' /\ d_intfs st' = d_intfs st.
 Proof.
-  intros Halive Hnd Hret Hit HI Hle. unfold iterate in Hit. rewrite Halive in Hit.
+  intros Halive Hnd Hret [Hq Hc] Hit HI Hle. unfold iterate in Hit. rewrite Halive in Hit.
   set (now := it_now it) in *.
   set (gs := filter (fun g : dgram => g_v4 g) (it_dgrams it) ++ filter (fun g : dgram => negb (g_v4 g)) (it_dgrams it)) in *.
-  pose proof (handle_dgrams_reach now gs st (it_jitter it)) as Q1.
+  assert (Hqs : all_queries gs) by (apply all_queries_split; assumption).
+  pose proof (handle_dgrams_reach now gs st (it_jitter it) Hqs) as Q1.
   pose proof (handle_dgrams_resp now gs st (it_jitter it)) as [P1 R1].
   pose proof (handle_dgrams_intfs now gs st (it_jitter it)) as F1.
   destruct (handle_dgrams st gs now (it_jitter it)) as [[st1 os1] js1]. simpl in Q1, P1, R1, F1.
   assert (Hret1 : retrans_ok st1) by (unfold retrans_ok; rewrite R1; exact Hret).
-  pose proof (exec_calls_reach now (it_calls it) st1 js1) as Q2.
-  pose proof (exec_calls_resp now (it_calls it) st1 js1) as [P2 R2].
-  pose proof (exec_calls_intfs now (it_calls it) st1 js1) as F2.
+  pose proof (exec_calls_reach now (it_calls it) st1 js1 Hc) as Q2.
+  pose proof (exec_calls_resp now (it_calls it) st1 js1 Hc) as [P2 R2].
+  pose proof (exec_calls_intfs now (it_calls it) st1 js1 Hc) as F2.
   destruct (exec_calls st1 (it_calls it) now js1) as [[st2 os2] js2]. simpl in Q2, P2, R2, F2.
   specialize (R2 Hret1).
   assert (HI2 : Inv (rg_probing (reg_of (d_regs st2) k)) f now).
@@ -797,20 +743,15 @@ Proof.
   destruct (d_dead st2) eqn:D2.
   - (* the daemon exited while executing the calls *)
     destruct (cut_at_panic (os1 ++ os2)) as [os p] eqn:Ecut.
-    destruct (place_resends (d_mif4 st) os) as [os' fm] eqn:Epl.
     inversion Hit; subst st' outs e js'; clear Hit.
     exists []. split; [|split; [intros n []|split; [|split]]].
     + simpl. eapply Inv_ext; [|exact HI2]. intros x. reflexivity.
     + intros n Hn. exfalso.
       assert (Hall : all_resp (os1 ++ os2)) by (apply all_resp_app; assumption).
-      assert (Hn2 : In n (probe_names_on (os1 ++ os2) k)).
-      { apply cut_names. rewrite Ecut. simpl.
-        apply (place_names os k) with (mif := d_mif4 st); [|rewrite Epl; exact Hn].
-        replace os with (fst (cut_at_panic (os1 ++ os2))) by (rewrite Ecut; reflexivity).
-        apply cut_resends. apply all_resp_resends. exact Hall. }
+      assert (Hn2 : In n (probe_names_on (os1 ++ os2) k)) by (apply cut_names; rewrite Ecut; exact Hn).
       rewrite (all_resp_no_probes _ k Hall) in Hn2. contradiction.
     + exact R2.
-    + simpl. congruence.
+    + congruence.
   - pose proof (retransmit_reach st2 now js2) as Q3.
     pose proof (retransmit_resp st2 now js2 R2) as [P3 R3].
     pose proof (retransmit_intfs st2 now js2) as F3.
@@ -821,20 +762,14 @@ Proof.
     assert (Hnd3 : NoDup (map if_index (d_intfs st3))) by (rewrite F3, F2, F1; exact Hnd).
     pose proof (probing_intfs_step now (d_intfs st3) st3 js3 Hnd3) as (S1 & S2 & S3).
     pose proof (probing_intfs_intfs now (d_intfs st3) st3 js3) as F4.
-    pose proof (probing_intfs_no_resends now (d_intfs st3) st3 js3) as N4.
-    destruct (probing_intfs (d_intfs st3) st3 now js3) as [[st4 os4] js4]. simpl in S1, S2, S3, F4, N4.
+    destruct (probing_intfs (d_intfs st3) st3 now js3) as [[st4 os4] js4]. simpl in S1, S2, S3, F4.
     destruct (cut_at_panic (os1 ++ os2 ++ os3 ++ os4)) as [os p] eqn:Ecut.
-    destruct (place_resends (d_mif4 st) os) as [os' fm] eqn:Epl.
-    assert (Hnames : forall n, In n (probe_names_on os' k) -> In n (probe_names_on os4 k)).
+    assert (Hnames : forall n, In n (probe_names_on os k) -> In n (probe_names_on os4 k)).
     { intros n Hn.
-      assert (Hn2 : In n (probe_names_on (os1 ++ os2 ++ os3 ++ os4) k)).
-      { apply cut_names. rewrite Ecut. simpl.
-        apply (place_names os k) with (mif := d_mif4 st); [|rewrite Epl; exact Hn].
-        replace os with (fst (cut_at_panic (os1 ++ os2 ++ os3 ++ os4))) by (rewrite Ecut; reflexivity).
-        apply cut_resends. repeat apply resends_resp_app; try (apply all_resp_resends; assumption). exact N4. }
+      assert (Hn2 : In n (probe_names_on (os1 ++ os2 ++ os3 ++ os4) k)) by (apply cut_names; rewrite Ecut; exact Hn).
       rewrite !probe_names_app, (all_resp_no_probes _ k P1), (all_resp_no_probes _ k P2), (all_resp_no_probes _ k P3) in Hn2.
       exact Hn2. }
-    assert (Hregs : d_regs st' = d_regs st4 /\ retrans_ok st' /\ d_intfs st' = d_intfs st /\ outs = os').
+    assert (Hregs : d_regs st' = d_regs st4 /\ retrans_ok st' /\ d_intfs st' = d_intfs st /\ outs = os).
     { destruct p; inversion Hit; subst; simpl; (split; [reflexivity|split; [apply S3; exact R3|split; [congruence|reflexivity]]]). }
     destruct Hregs as (Hr & Hrt & Hif & ->).
     unfold get_reg. rewrite Hr. fold (reg_of (d_regs st4) k).
@@ -862,18 +797,18 @@ Qed.
 
 Lemma wire_spacing_gen k n : forall its st f t,
   Inv (rg_probing (get_reg st k)) f t -> retrans_ok st -> NoDup (map if_index (d_intfs st)) ->
-  iter_times_from t its -> lb_gaps (f n) (wire_probe_times k n st its).
+  Forall plain_iter its -> iter_times_from t its -> lb_gaps (f n) (wire_probe_times k n st its).
 Proof.
-  induction its as [|it rest IH]; intros st f t HI Hret Hnd Hts; simpl.
+  induction its as [|it rest IH]; intros st f t HI Hret Hnd Hpl Hts; simpl.
   - split; [destruct (f n); exact I|exact I].
-  - destruct Hts as [Hle Hrest].
+  - destruct Hts as [Hle Hrest]. inversion Hpl as [|x l Hp Hpr]; subst.
     destruct (d_dead st) eqn:Hd.
     + unfold iterate. rewrite Hd. simpl. rewrite wire_dead by assumption.
       split; [destruct (f n); exact I|exact I].
     + destruct (iterate st it) as [[[st' outs] e] js'] eqn:Hit.
-      destruct (iterate_step k st it st' outs e js' f t Hd Hnd Hret Hit HI Hle) as (qs & HI' & Hsp & Hsub & Hret' & Hif).
+      destruct (iterate_step k st it st' outs e js' f t Hd Hnd Hret Hp Hit HI Hle) as (qs & HI' & Hsp & Hsub & Hret' & Hif).
       assert (Hnd' : NoDup (map if_index (d_intfs st'))) by (rewrite Hif; exact Hnd).
-      specialize (IH st' (upd_all f qs (it_now it)) (it_now it) HI' Hret' Hnd' Hrest).
+      specialize (IH st' (upd_all f qs (it_now it)) (it_now it) HI' Hret' Hnd' Hpr Hrest).
       destruct IH as [B G]. unfold upd_all in B.
       destruct (mem n (probe_names_on outs k)) eqn:M.
       * apply mem_In in M. apply Hsub in M. assert (M' := M). apply mem_In in M'. rewrite M' in B.
@@ -886,17 +821,22 @@ Proof.
         -- destruct (f n); exact B.
 Qed.
 
-(* In every history of the daemon model - any interface table without repeated indexes, any
-   datagrams, calls, jitter values, at any nondecreasing iteration times - the iterations that put
-   a probe query for a name on an interface are at least 250 ms apart. *)
+(* In every history of the daemon model without response datagrams and without
+   enable/disable_interface calls - any interface table without repeated indexes, any query
+   datagrams (competing probes included), register / unregister / shutdown calls, jitter values, at
+   any nondecreasing iteration times - the iterations that put a probe query for a name on an
+   interface are at least 250 ms apart.  (A conflicting response restarts probes at now + 0..250, a
+   removed interface takes its registry with it: across those events the count starts afresh,
+   see spaced_250.) *)
 Theorem wire_probe_spacing ifs its t0 k n :
-  NoDup (map if_index ifs) -> iter_times_from t0 its ->
+  NoDup (map if_index ifs) -> Forall plain_iter its -> iter_times_from t0 its ->
   gaps_250 (wire_probe_times k n (d_init ifs) its).
 Proof.
-  intros Hnd Hts.
+  intros Hnd Hpl Hts.
   apply (wire_spacing_gen k n its (d_init ifs) (fun _ => None) t0).
   - unfold get_reg. simpl. apply Inv_init.
   - intros t m i v4 [].
   - exact Hnd.
+  - exact Hpl.
   - exact Hts.
 Qed.
